@@ -3,7 +3,8 @@
 TLC enumerates every complete behaviour of DataMover.tla (configuration x 1..2 accepted
 requests x arrival pattern) and checks the statement on the specification itself; every
 behaviour is then replayed on the real data mover assembled between two ideal memory
-controllers (harness driver memagents1/datamover) at two byte scales."""
+controllers (harness driver memagents1/datamover) at two byte scales, and once more with memories that
+complete requests out of issue order (interleaved controllers with different latencies / a seeded memory stub)."""
 from vlib import core, memagents1
 
 LEVEL = "model_checking"
@@ -63,7 +64,7 @@ def run(ck):
     ck.cov["rule"] = ("Every complete behaviour of DataMover.tla in the configured bounds (inside/outside granularity, buffer "
                       "size able to hold one destination granule's worth of source granules, all four side pairs, aligned addresses, sizes incl. 0 and non-multiples, "
                       "1-2 requests queued together or one after the other) is run on the real data mover at byte scales 1 "
-                      "and 16; at the instant each acknowledgment is sent all 2x8192 bytes of both memories are compared with "
+                      "and 16 with in-order memories and once with out-of-order memories; at the instant each acknowledgment is sent all 2x8192 bytes of both memories are compared with "
                       "the specification's memories; acknowledgments must be one per request, in arrival order, RspTo = request "
                       "ID; memory must not change after the last acknowledgment. Non-trivial = differing granularities, size "
                       "not a multiple of a granularity, same-side move, buffer smaller than the range, or two requests.")
@@ -76,21 +77,34 @@ def run(ck):
         "a request queued behind others is judged against the memories as the earlier moves leave them (FIFO, one at a "
         "time); 'when the move was requested' and 'when its turn comes' differ only if an earlier queued move writes the "
         "later one's source range",
-        "both sides are single-port idealmemcontroller instances (latency and port buffers drawn from the seed); "
-        "interleaved multi-port mappers are not exercised",
+        "each side is served by one idealmemcontroller (in order), by two idealmemcontrollers with different latencies "
+        "behind an interleaved mapper (granule by granule), or by the harness's memory stub with seeded per-request "
+        "delays (completions permuted); every memory keeps the arrival order of accesses to overlapping bytes; "
+        "latencies, delays and port buffers are drawn from the seed",
         "forward-overlapping same-side requests are generated only with sizes that are multiples of the destination "
         "granularity, to keep the recorded defect classes separable",
     ]
 
     # ---- build the concrete runs
+    # per behaviour: both byte scales with in-order ideal controllers on both sides, plus one run (seeded scale) in which
+    # at least one side completes requests out of issue order (two interleaved controllers with different latencies, or
+    # the harness's memory stub with seeded per-request delays)
     runs = []
     for c in specs:
-        for scale in SCALES:
+        variants = [(scale, "ideal", "ideal") for scale in SCALES]
+        kinds = ck.rng.choice((("stub", "stub"), ("interleaved", "interleaved"), ("stub", "ideal"), ("ideal", "stub"),
+                               ("interleaved", "stub"), ("stub", "interleaved"), ("interleaved", "ideal"), ("ideal", "interleaved")))
+        variants.append((ck.rng.choice(SCALES),) + kinds)
+        for scale, mem_in, mem_out in variants:
             k = dict(c)
             k["scale"] = scale
-            k["seed"] = ck.seed
+            k["seed"] = ck.seed * 1000 + ck.rng.randrange(1000)
             k["lat_in"] = ck.rng.choice((1, 2, 3, 5))
             k["lat_out"] = ck.rng.choice((1, 2, 3, 5))
+            k["lat2_in"] = ck.rng.choice((1, 2, 4, 7, 11))
+            k["lat2_out"] = ck.rng.choice((1, 2, 4, 7, 11))
+            k["stub_max"] = ck.rng.choice((3, 9, 20))
+            k["mem_in"], k["mem_out"] = mem_in, mem_out
             k["port_buf"] = ck.rng.choice((1, 2, 4, 8))
             runs.append(k)
     results = memagents1.run_cases(ck, "datamover", runs)
@@ -116,8 +130,8 @@ def run(ck):
         key = {"class": cls, "symptom": f["symptom"]}
         per_class[(cls, f["symptom"])] = per_class.get((cls, f["symptom"]), 0) + 1
         s = c["scale"]
-        desc = ("data mover ig=%d og=%d buffer=%d: request #%d %s[%d..+%d) -> %s[%d..+%d) (src granularity %d, dst granularity %d): %s"
-                % (c["ig"] * s, c["og"] * s, c["buf"] * s, f["req"], q["src"], q["sa"] * s, q["size"] * s, q["dst"], q["da"] * s,
+        desc = ("data mover ig=%d og=%d buffer=%d (inside memory %s, outside memory %s): request #%d %s[%d..+%d) -> %s[%d..+%d) (src granularity %d, dst granularity %d): %s"
+                % (c["ig"] * s, c["og"] * s, c["buf"] * s, c["mem_in"], c["mem_out"], f["req"], q["src"], q["sa"] * s, q["size"] * s, q["dst"], q["da"] * s,
                    q["size"] * s, sg * s, dg * s, f["symptom"]))
         if f["symptom"] == "never_acknowledged":
             desc += " (%s)" % f.get("detail", "")
@@ -135,6 +149,7 @@ def run(ck):
     ck.cov["failures_by_class"] = {"%s/%s" % k: v for k, v in sorted(per_class.items())}
     for c in (runs[0], runs[len(runs) // 2], runs[-1]):
         ck.sample({"ig": c["ig"], "og": c["og"], "buf": c["buf"], "scale": c["scale"], "reqs": c["reqs"],
-                   "lat": [c["lat_in"], c["lat_out"]], "port_buf": c["port_buf"]})
-    ck.note("replayed %d runs (%d behaviours x %d scales): %d passed, failures by class %s" % (
+                   "lat": [c["lat_in"], c["lat_out"]], "port_buf": c["port_buf"], "memories": [c["mem_in"], c["mem_out"]]})
+    ck.cov["runs_with_out_of_order_memory"] = sum(1 for c in runs if (c["mem_in"], c["mem_out"]) != ("ideal", "ideal"))
+    ck.note("replayed %d runs (%d behaviours x (%d scales in-order + 1 out-of-order memory)): %d passed, failures by class %s" % (
         len(runs), len(specs), len(SCALES), passed, ck.cov["failures_by_class"]))
